@@ -1,7 +1,8 @@
-\* thorough, second config: snaps a, b (+ snapd) but up to 4 changes
+\* thorough, second config: snaps a, b, c (+ snapd), at most 3 changes, without partial progress (state space)
 CONSTANTS
-  Snaps <- MCSnaps2
-  MaxChanges = 4
+  Snaps <- MCSnaps3
+  MaxChanges = 3
+  WithPartial = FALSE
 INIT Init
 NEXT Next
 CHECK_DEADLOCK FALSE
